@@ -373,6 +373,21 @@ def run_unit(unit, tier):
                     for got, how in ((a, "schemaless"), (b, "container")):
                         if type(got) is not type(v) or got != v:
                             res.add(Violation("c16.union", f"logical-union-wrong-converter:{how}", f"{v!r} written under {sch} read back ({how}, reader_schema={'given' if rs is not None else 'none'}) as {got!r}", info))
+        # values no branch can hold: a Decimal with too many fractional / significant digits next to a float branch
+        # (a Decimal is not a float), in either order - the writer must refuse them
+        DEC42 = {"type": "bytes", "logicalType": "decimal", "precision": 4, "scale": 2}
+        FD2 = {"type": "fixed", "name": "Fd2", "size": 2, "logicalType": "decimal", "precision": 4, "scale": 2}
+        for sch in ([DEC42, "double"], ["double", DEC42], ["null", FD2, "float"], [DEC42, "double", "string"]):
+            for v in (decimal.Decimal("1.234"), decimal.Decimal("123.45"), decimal.Decimal("NaN")):
+                res.evals += 1
+                ctx.n += 1
+                info = {"schema": sch, "value": v, "reader_schema": None}
+                try:
+                    fo = io.BytesIO()
+                    fa.schemaless_writer(fo, _copy.deepcopy(sch), v)
+                except Exception:
+                    continue
+                res.add(Violation("c16.reject", "unrepresentable-accepted:union-with-float-branch", f"{v!r} fits no branch of {sch} but was written as {fo.getvalue().hex()}", info))
         res.sample({"type": "unions of logical types over one base type", "cases": len(cases)})
     elif kind == "containers":
         # every logical type as map value, array item, record field, nested two deep and by name: the conversion applies at
@@ -427,6 +442,23 @@ def run_unit(unit, tier):
                             if repr(got) != repr(d) or got != d:
                                 res.add(Violation("c16.container-position", f"logical-in-{shape}-not-converted:{leaf['logicalType']}",
                                                   f"{d!r} written under {sch} read back ({how}, reader_schema={'given' if rs is not None else 'none'}) as {got!r}", info))
+        # very many logical values in one read (nothing may accumulate per converted value)
+        for leaf, vals in samples[:2] + samples[8:9]:
+            for count in (450, 1200, 5000):
+                for sch, d in (({"type": "array", "items": leaf}, [vals[i % len(vals)] for i in range(count)]),
+                               ({"type": "map", "values": leaf}, {"k%d" % i: vals[i % len(vals)] for i in range(count)})):
+                    res.evals += 1
+                    ctx.n += 1
+                    info = {"schema": sch, "value": f"<{count} values>", "reader_schema": None}
+                    try:
+                        fo = io.BytesIO()
+                        fa.schemaless_writer(fo, _copy.deepcopy(sch), d)
+                        got = fa.schemaless_reader(io.BytesIO(fo.getvalue()), _copy.deepcopy(sch))
+                    except Exception as e:
+                        res.add(Violation("c16.container-position", f"many-logical-values-raised:{type(e).__name__}", f"{count} {leaf['logicalType']} values in one {sch['type']}: {type(e).__name__}: {str(e)[:120]}", info))
+                        continue
+                    if got != d:
+                        res.add(Violation("c16.container-position", "many-logical-values-differ", f"{count} {leaf['logicalType']} values in one {sch['type']} read back differently", info))
         res.sample({"type": "logical types inside containers", "leaves": len(samples), "shapes": 8})
     elif kind == "tz-switch":
         # the library is imported while the process is in a fixed-offset zone; the zone is UTC again when values are
